@@ -145,18 +145,19 @@ GOALS = {
     "G_DroppedUpdate": "g_write", "G_BlockedDel": "g_write", "G_UpdateOfEvicted": "g_upd",
     "G_SweepWithBuffered": "g_ttl", "G_LateApply": "g_ttl", "G_ExpiredUnswept": "g_ttl",
     "G_ClearWithBacklog": "g_clear", "G_ClearWhileBusy": "g_clear", "G_ClearWithPending": "g_clear1",
+    "G_SameBucketRewrite": "g_ttl", "G_TTLDropped": "g_ttl",
 }
 GOALS_FOR = {
     "C02": ["G_UpdateOfEvicted", "G_DroppedUpdate", "G_ClearWhileBusy"],
     "C03": ["G_RaiseCost", "G_TwoVictims", "G_DuplicateVictim", "G_UpdateOfEvicted"],
     "C04": ["G_DroppedUpdate", "G_RejectWithVictims", "G_ClearWithBacklog", "G_ExpiredUnswept", "G_ClearWithPending"],
     "C05": ["G_BlockedDel", "G_ClearWithBacklog"],
-    "C06": ["G_LateApply1", "G_ExpiredUnswept1"],
-    "C07": ["G_ExpiredUnswept", "G_LateApply", "G_ExpiredUnswept1"],
+    "C06": ["G_LateApply1", "G_ExpiredUnswept1", "G_SameBucketRewrite1", "G_TTLDropped1"],
+    "C07": ["G_ExpiredUnswept", "G_LateApply", "G_ExpiredUnswept1", "G_SameBucketRewrite1", "G_SameBucketRewrite", "G_TTLDropped1"],
     "C08": ["G_BlockedDel", "G_ClearWithBacklog", "G_ClearWhileBusy"],
     "C09": ["G_RejectWithVictims", "G_TwoVictims", "G_DuplicateVictim"],
     "C13": ["G_RejectWithVictims", "G_BlockedDel", "G_LateApply", "G_UpdateOfEvicted"],
-    "C14": ["G_SweepWithBuffered", "G_LateApply", "G_ExpiredUnswept"],
+    "C14": ["G_SweepWithBuffered", "G_LateApply", "G_ExpiredUnswept", "G_SameBucketRewrite", "G_TTLDropped"],
     "C15": ["G_ClearWithBacklog", "G_ClearWhileBusy", "G_ExpiredUnswept", "G_ClearWithPending"],
     "C17": ["G_RejectWithVictims", "G_DroppedUpdate", "G_UpdateOfEvicted", "G_ClearWhileBusy", "G_ClearWithPending"],
 }
